@@ -279,9 +279,10 @@ def run_pattern(ctx, n, adj, forms, cases, meta, seen, origin):
                 snum, _, so, sp = raw_scipy(sg)
                 aux.append((snum == 1, so, sp))
         s = ("{| g_n := %d; g_adj := %s; s_num := %d; s_proj := %s; s_order := %s; s_pred := %s; s_aux := %s; "
-             "i_scc := %s; i_sink := %s; i_period := %s; i_cyclic := %s; i_mc_period := %s |}"
+             "i_scc := %s; i_sink := %s; i_period := %s; i_cyclic := %s; i_mc_period := %s; i_aper := %s; i_mc_aper := %s |}"
              % (n, nll(adj), num, nl(proj), nl(order), zl(pred), auxl(aux), nll(o["scc"]), nll(o["sink"]),
-                zlit(o["period"]) + "%Z", onll(o["cyclic"]), zlit(om["mc_period"] if om else -3) + "%Z"))
+                zlit(o["period"]) + "%Z", onll(o["cyclic"]), zlit(om["mc_period"] if om else -3) + "%Z",
+                zlit(-1 if o["aper"] is None else int(o["aper"])) + "%Z", zlit(int(om["mc_aper"]) if om else -3) + "%Z"))
         ctx.count("form:" + form)
         if s not in seen:
             seen[s] = len(cases)
